@@ -53,6 +53,7 @@ tpt_msg_queue_p tpt_msg_queue_create(tpt_p tpt, const uint32_t flags);
 #define TP_MSG_Q_F_CLOEXEC	(((uint32_t)1) <<  0) /* Pass O_CLOEXEC to pipe2(). */
 
 void		tpt_msg_queue_destroy(tpt_msg_queue_p msg_queue);
+void		tpt_msg_queue_drain(tpt_p tpt);
 
 
 /* Thread messages. Unicast and Broadcast. */
